@@ -60,6 +60,10 @@ pub enum Step {
     Complete,
     Stable,
     StablePrefilter,
+    /// `stable_bdd_representation(&biodivine)`: the single-formula rewriting of the hybrid route
+    /// (bridged builds only; on a native object the step is `stable()`). It goes straight to reducts without
+    /// computing the grounded interpretation first.
+    StableRewrite,
     StableCountA,
     StableCountB,
     Nogood(HeuK),
@@ -104,6 +108,8 @@ pub struct History {
 
 struct Obj {
     adf: Adf,
+    /// the biodivine object a bridged build came from (`stable_bdd_representation` wants it)
+    bio: Option<adf_bdd::adfbiodivine::Adf>,
     n: usize,
     extras: Vec<Term>,
     /// (handle, function at issue time) of everything handed out so far
@@ -133,9 +139,11 @@ fn heuristic(adf: &mut Adf, h: HeuK) -> Heuristic<'static> {
 impl Obj {
     fn fresh(spec: &AdfSpec, build: Build) -> Result<Obj, String> {
         let adf = build_adf(spec, build)?;
+        let bio = if build == Build::Native { None } else { Some(crate::common::build_bio(spec)?) };
         let n = spec.n();
         let mut o = Obj {
             adf,
+            bio,
             n,
             extras: Vec::new(),
             issued: Vec::new(),
@@ -239,6 +247,14 @@ impl Obj {
             }
             Step::StablePrefilter => {
                 let l: Vec<_> = self.adf.stable_with_prefilter().collect();
+                self.interps(l)?
+            }
+            Step::StableRewrite => {
+                let l: Vec<_> = match &self.bio {
+                    Some(b) => self.adf.stable_bdd_representation(b),
+                    // native objects have no biodivine origin: the plain lazy enumeration
+                    None => self.adf.stable().collect(),
+                };
                 self.interps(l)?
             }
             Step::CompleteTake(k) => {
@@ -704,6 +720,13 @@ impl Scenario for History {
             };
             steps.push(s);
         }
+        // drawn last, so that every other draw of this generator is what it was before the step
+        // existed: on bridged objects the hybrid rewriting, preferably as the very first call
+        let mut steps = steps;
+        if build != Build::Native && rng.chance(1, 5) {
+            let at = if rng.chance(2, 3) { 0 } else { rng.below(steps.len() as u64 + 1) as usize };
+            steps.insert(at, Step::StableRewrite);
+        }
         HistCase { spec, build, steps }
     }
 
@@ -1039,7 +1062,7 @@ fn answer_kind(step: &Step) -> &'static str {
     match step {
         Step::Grounded => "grounded",
         Step::Complete | Step::CompleteTake(_) => "complete",
-        Step::Stable | Step::StablePrefilter | Step::StableTake(_) => "stable",
+        Step::Stable | Step::StablePrefilter | Step::StableRewrite | Step::StableTake(_) => "stable",
         Step::StableCountA | Step::StableCountB => "stable-counting",
         Step::Nogood(_) | Step::TwoValNogood(_) => "nogood",
         Step::FormulaCountsNaive | Step::FacetCountAc | Step::FacetCountGrounded => "counts",
